@@ -415,6 +415,28 @@ fn sl_obj_allvec_open(w: &Wire, _s: &[u8]) -> Option<OpenOut> {
     outv(b.unseal::<_, _, Vec<u8>>(&kp))
 }
 
+fn bx_obj_new_with_data_and_mac(w: &Wire, _s: &[u8]) -> Option<OpenOut> {
+    let (mac, body) = split16(&w.ct)?;
+    let b: DryocBox<StackByteArray<32>, StackByteArray<16>, Vec<u8>> = DryocBox::new_with_data_and_mac(StackByteArray::from(mac), body);
+    if b.to_vec() != w.ct {
+        return outv::<Vec<u8>>(Err(dryoc::Error::from("box built from detached parts does not re-encode to the wire bytes")));
+    }
+    outv(b.decrypt_to_vec(&StackByteArray::<24>::from(w.nonce), &StackByteArray::<32>::from(w.pk), &StackByteArray::<32>::from(w.sk)))
+}
+fn sl_obj_new_with_epk_data_and_mac(w: &Wire, _s: &[u8]) -> Option<OpenOut> {
+    if w.ct.len() < 48 {
+        return None;
+    }
+    let epk: [u8; 32] = w.ct[..32].try_into().unwrap();
+    let mac: [u8; 16] = w.ct[32..48].try_into().unwrap();
+    let b: DryocBox<StackByteArray<32>, StackByteArray<16>, Vec<u8>> = DryocBox::new_with_epk_data_and_mac(StackByteArray::from(epk), StackByteArray::from(mac), &w.ct[48..]);
+    if b.to_vec() != w.ct {
+        return outv::<Vec<u8>>(Err(dryoc::Error::from("sealed box built from detached parts does not re-encode to the wire bytes")));
+    }
+    let kp: KeyPair<StackByteArray<32>, StackByteArray<32>> = KeyPair { public_key: StackByteArray::from(w.pk), secret_key: StackByteArray::from(w.sk) };
+    outv(b.unseal_to_vec(&kp))
+}
+
 /// forms that only exist with the `nightly` feature (heap / locked containers)
 pub fn is_nightly_form(name: &str) -> bool {
     name.contains("Heap") || name.to_lowercase().contains("locked")
@@ -456,6 +478,8 @@ pub fn open_forms() -> Vec<OpenForm> {
         OpenForm { name: "VecBox(box)::from_sealed_bytes+unseal_to_vec", family: Seal, f: sl_obj_unseal, costly: true },
         OpenForm { name: "DryocBox<array,array,Vec>::from_parts+unseal", family: Seal, f: sl_obj_unseal_arrays, costly: true },
         OpenForm { name: "DryocBox<Vec,Vec,Vec>::from_parts+decrypt(Vec nonce, Vec keys)", family: Box, f: bx_obj_allvec_open, costly: true },
+        OpenForm { name: "DryocBox::new_with_data_and_mac+to_vec+decrypt", family: Box, f: bx_obj_new_with_data_and_mac, costly: true },
+        OpenForm { name: "DryocBox::new_with_epk_data_and_mac+to_vec+unseal", family: Seal, f: sl_obj_new_with_epk_data_and_mac, costly: true },
         OpenForm { name: "DryocBox<Vec,Vec,Vec>::from_parts+unseal(Vec key pair)", family: Seal, f: sl_obj_allvec_open, costly: true },
     ];
     #[cfg(feature = "nightly")]
